@@ -41,11 +41,17 @@ pub fn event_budget(n_chars: usize) -> usize {
 
 pub fn generate(run_seed: u64, corpus: &Corpus, sw: &Swarm, i: u64, exhaustive: u64) -> Case {
     if i < exhaustive {
-        return Case {
-            prop: "C10".into(),
-            gen: "X-exhaustive".into(),
-            text: crate::gen::nth_string(&crate::gen::C10_ALPHABET, i),
-            ..Case::default()
+        // first the token strings, then the character strings
+        let toks = exhaustive - crate::gen::count_strings(16, if exhaustive > 1_000_000 { 5 } else { 4 });
+        return if i < toks {
+            Case { prop: "C10".into(), gen: "X-tokens".into(), text: crate::gen::nth_token_string(i), ..Case::default() }
+        } else {
+            Case {
+                prop: "C10".into(),
+                gen: "X-exhaustive".into(),
+                text: crate::gen::nth_string(&crate::gen::C10_ALPHABET, i - toks),
+                ..Case::default()
+            }
         };
     }
     let mut g = Gen::new(run_seed, corpus, sw);
